@@ -64,6 +64,7 @@ class FleetStore(Store):
         self._weighted_sum = 0.0
         self.time_averaged_num_of_items_in_store = 0.0  # Time-averaged number of items in the store
         self.activate_fleet= self.env.event()  # Event to activate the fleet when items are available
+        self.in_transit_items = []  # items of self.items that are already on a trip
         
         self.env.process(self.fleet_activation_process())  # Start the fleet activation process
 
@@ -93,8 +94,12 @@ class FleetStore(Store):
             
             if self.items:
                 print(f"T={self.env.now:.2f}: Fleet activated with {len(self.items)} items ready.")
-                self.env.process(self.move_to_ready_items(self.items))
-                #self.env.process(self.move_to_ready_items(self.items))
+                # the batch is exactly the items waiting now that are not already on a trip
+                batch = [it for it in self.items
+                         if not any(it is t for t in self.in_transit_items)]
+                if batch:
+                    self.in_transit_items.extend(batch)
+                    self.env.process(self.move_to_ready_items(batch))
                 if self.activate_fleet.triggered:
                     #print("yes")
                     self.activate_fleet = self.env.event()  # Reset the event for next activation
@@ -701,6 +706,7 @@ class FleetStore(Store):
                 
                 item_index = self.items.index(item)
                 item_to_put = self.items.pop(item_index)  # Remove the first item
+                self.in_transit_items = [t for t in self.in_transit_items if t is not item_to_put]
                
                 if len(self.ready_items) < self.capacity:
                     self.ready_items.append(item_to_put)
